@@ -90,13 +90,18 @@ def exhaustive_lines(mmax, acks=(1000, 2 * 10**9)):
     return out
 
 
-def last_copy_lines():
+def with_level(line, level):
+    f = line.split(" | ", 1)
+    return f[0] + " " + level + (" | " + f[1] if len(f) == 2 else "")
+
+
+def last_copy_lines(acks=(1000, 2 * 10**9)):
     """All copies but the last are lost; the answer to the LAST copy arrives at various offsets after it - in particular
     just before / at / just after the instant the next copy would have been due - with and without a housekeeping pass
     in between.  Returns (line, label): label 'window' = no pass since the last copy (the judge demands success up to
     the would-be instant), 'pass-between' = a pass ran in between (O-C06-2: not demanded, outcome counted)."""
     out = []
-    for A in (1000, 2 * 10**9):
+    for A in acks:
         for M in (0, 1, 2, 4):
             for reaction in ("pig", "ack-resp", "resp-con", "resp-non"):
                 for off in ("0", "1", "half", "due-1", "due", "due+1", "late"):
@@ -310,11 +315,21 @@ def explore(ctx, art):
     for l, lab in lastc:
         last_label[len(lines)] = lab
         lines.append(l)
+    # the same single-request histories with the parameters set through options.WithTransmission (level opt) and on a
+    # connection accepted by a dtls.Server that was configured with that option (level dtlssrv; ACK_TIMEOUT below and
+    # above the 2 s default, MAX_RETRANSMIT 0 included)
+    lv = [with_level(l, "opt") for l in exhaustive_lines(2, acks=(1000,))]
+    lv += [with_level(l, "dtlssrv") for l in exhaustive_lines(4 if thorough else 2, acks=(1000, 5 * 10**9))]
+    lv += [with_level(l, "opt") for l, _ in last_copy_lines(acks=(1000,))]
+    lv += [with_level(l, "dtlssrv") for l, _ in last_copy_lines(acks=(5 * 10**9,))]
+    lines += lv
     nfixed = len(lines)
     classes = {}
-    for _ in range(200000 if thorough else 20000):
+    for k in range(200000 if thorough else 20000):
         l, cls = gen_scenario(rng)
         lines.append(l)
+        if k % 10 == 0:
+            lines.append(with_level(l, "opt"))     # every tenth seeded scenario also through the option constructor
         for c in cls:
             classes[c] = classes.get(c, 0) + 1
     impl, model, judge = run_lines(ctx, art, lines)
@@ -365,6 +380,7 @@ def explore(ctx, art):
     for c, n in sorted(classes.items()):
         ctx.count(c, n)
     ctx.count("exhaustive-loss-patterns", len(ex))
+    ctx.count("level-opt/dtlssrv (options.WithTransmission, dtls.Server-made connection)", len(lv))
     ctx.count("mixed-kinds-same-tick-bursts", len(bursts))
     ctx.cov["distinct_nontrivial"] = len(distinct)
     ctx.cov["traces_validated_against_impl"] = len(lines)
